@@ -268,6 +268,10 @@ func negotiateServer(ctx context.Context, identity, password string, permissions
 		if err != nil {
 			return 0, nil, err
 		}
+		// Do not report success if it could not be sent.
+		if err = w.Flush(); err != nil {
+			return 0, nil, err
+		}
 		return Authn, session.Conn(), nil
 	}
 
@@ -278,6 +282,9 @@ func negotiateServer(ctx context.Context, identity, password string, permissions
 		},
 	))
 	if err != nil {
+		return 0, nil, err
+	}
+	if err = w.Flush(); err != nil {
 		return 0, nil, err
 	}
 	return Authn, session.Conn(), nil
